@@ -14,9 +14,10 @@ every run by `harness/cmd/c11`.
   a client without a pool cannot unlock;
 * `others_preserve_stake`, `lock_unlock_roundtrip` — over ANY interleaving of other clients' lock / unlock / collect and
   of reward payments, a staker's pool balance stays what it locked, and unlocking returns it with the accrued rewards;
-* `authorizer_lock_hides_pool_witness` — FALSE for authorizers as coded: `zcnsc.StakePool` inherits
-  `stakepool.StakePool.Save`, the first lock rewrites the record in a layout `zcnsc` cannot read, the stake can never be
-  unlocked (`lock_unlock_roundtrip` is therefore stated for the other four kinds: `_partial` in that sense).
+All five provider kinds are covered. (Until repo commit fc9e9de the property was false for authorizers: `zcnsc.StakePool`
+inherited `stakepool.StakePool.Save`, the first lock rewrote the record in a layout `zcnsc` read back as empty, the stake
+could never be unlocked; `zcnsc.StakePool.Save` now stores the layout `getStakePool` reads. The oracle of `harness/cmd/c11`
+keeps the three signatures of that defect, so a regression is reported.)
 `StakePoolUnlock` reads the wall clock (`time.Now()`, min lock period): the model takes it as the input `wall`; the clock
 read itself is C06's subject.
 -/
@@ -68,8 +69,8 @@ theorem lock_moves_value (cfg : Cfg) (s : State) (k : Kind) (pid : Id) (t : Txn)
   -- `PaysOnly` is stated from the payer's side: here the staker pays the contract wallet
   have hflow := Ledger.applyTransfers_flow trs s.accts a ha
   obtain ⟨p1, p2, p3, p4⟩ := hpay
-  refine ⟨sp, { sp with pools := kvSet sp.pools t.client (lockedDP (kvGet sp.pools t.client) t.value t.now),
-                          inner := if k = .authorizer then true else sp.inner }, f.load, ?_, ?_, ?_, ?_, ?_, ?_, rfl,
+  refine ⟨sp, { sp with pools := kvSet sp.pools t.client (lockedDP (kvGet sp.pools t.client) t.value t.now) },
+    f.load, ?_, ?_, ?_, ?_, ?_, ?_, rfl,
     f.pos, f.minOK, f.maxOK, rfl, ?_⟩
   · show kvGet s'.sps (k, pid) = _
     rw [f.state]; unfold putSP; simp only; exact kvGet_kvSet_eq _ _ _
@@ -131,7 +132,7 @@ theorem unlock_returns_all (cfg : Cfg) (s : State) (k : Kind) (pid : Id) (t : Tx
   obtain ⟨sp2, hs2, g1, g2, g3, _⟩ := f.result
   rw [hst]
   obtain ⟨b1, b2, b3⟩ := flow_single ha f.pays hc
-  refine ⟨sp, dp, { sp2 with inner := if k = .authorizer then true else sp2.inner }, f.load, f.pool, ?_, ?_, ?_, ?_,
+  refine ⟨sp, dp, sp2, f.load, f.pool, ?_, ?_, ?_, ?_,
     g1, g2, g3, f.time⟩
   · show kvGet s'.sps (k, pid) = _
     rw [hs2]; unfold putSP; simp only; exact kvGet_kvSet_eq _ _ _
@@ -150,21 +151,21 @@ theorem stakeOfClient_accts (s : State) (a : Ledger.Accts) (kk : Kind × Id) (c 
 
 /-- the stake `(balance, stakedAt)` of client `c` in EVERY stored record is untouched by a lock of another client. -/
 theorem lock_other_preserves (cfg : Cfg) (s : State) (k : Kind) (pid : Id) (t : Txn) (c : Id) (hc : t.client ≠ c)
-    (hk : k ≠ .authorizer) (kk : Kind × Id) :
+    (kk : Kind × Id) :
     stakeOfClient (lockTxn cfg s k pid t).1 kk c = stakeOfClient s kk c := by
   unfold lockTxn
   by_cases hok : (exec s t.client (lock cfg s k pid t)).2 = .ok
   · obtain ⟨s', trs, a, hr, _, hst⟩ := exec_ok_inv hok
     obtain ⟨sp, f⟩ := lock_inv hr
     rw [hst, stakeOfClient_accts, f.state]
-    refine (stakeOfClient_put s k pid sp _ kk c (loadSP_stored f.load hk) ?_).1
+    refine (stakeOfClient_put s k pid sp _ kk c (loadSP_stored f.load) ?_).1
     simp only
     rw [kvGet_kvSet_ne _ _ _ _ (Ne.symm hc)]
   · rcases exec_not_ok hok with h | h <;> rw [h]
     rfl
 
 theorem unlock_other_preserves (cfg : Cfg) (s : State) (k : Kind) (pid : Id) (t : Txn) (wall : Nat) (c : Id)
-    (hc : t.client ≠ c) (hk : k ≠ .authorizer) (kk : Kind × Id) :
+    (hc : t.client ≠ c) (kk : Kind × Id) :
     stakeOfClient (unlockTxn cfg s k pid t wall).1 kk c = stakeOfClient s kk c := by
   unfold unlockTxn
   by_cases hok : (exec s t.client (unlock cfg s k pid t wall)).2 = .ok
@@ -172,20 +173,20 @@ theorem unlock_other_preserves (cfg : Cfg) (s : State) (k : Kind) (pid : Id) (t 
     obtain ⟨sp, dp, f⟩ := unlock_inv hr
     obtain ⟨sp2, hs2, _, g2, _, _⟩ := f.result
     rw [hst, stakeOfClient_accts, hs2]
-    refine (stakeOfClient_put s k pid sp _ kk c (loadSP_stored f.load hk) ?_).1
+    refine (stakeOfClient_put s k pid sp _ kk c (loadSP_stored f.load) ?_).1
     rw [g2 c (Ne.symm hc)]
   · rcases exec_not_ok hok with h | h <;> rw [h]
     rfl
 
 theorem collect_other_preserves (s : State) (k : Kind) (pid client : Id) (c : Id)
-    (hk : k ≠ .authorizer) (kk : Kind × Id) :
+    (kk : Kind × Id) :
     stakeOfClient (collectTxn s k pid client).1 kk c = stakeOfClient s kk c := by
   unfold collectTxn
   by_cases hok : (exec s client (collect s k pid client)).2 = .ok
   · obtain ⟨s', trs, a, hr, _, hst⟩ := exec_ok_inv hok
     obtain ⟨sp, sp1, hl, hs1, g1, g2, _⟩ := collect_inv hr
     rw [hst, stakeOfClient_accts, hs1]
-    refine (stakeOfClient_put s k pid sp _ kk c (loadSP_stored hl hk) ?_).2
+    refine (stakeOfClient_put s k pid sp _ kk c (loadSP_stored hl) ?_).2
     by_cases hcc : c = client
     · subst hcc; exact g2
     · rw [g1 c hcc]
@@ -193,7 +194,7 @@ theorem collect_other_preserves (s : State) (k : Kind) (pid client : Id) (c : Id
     rfl
 
 /-- a reward payment never touches anybody's stake (only `reward` fields move). -/
-theorem reward_preserves (s s' : State) (k : Kind) (pid : Id) (v : Nat) (c : Id) (hk : k ≠ .authorizer)
+theorem reward_preserves (s s' : State) (k : Kind) (pid : Id) (v : Nat) (c : Id)
     (kk : Kind × Id) (h : payReward s k pid v = .ok s') : stakeOfClient s' kk c = stakeOfClient s kk c := by
   unfold payReward at h
   cases hl : loadSP s k pid with
@@ -201,7 +202,7 @@ theorem reward_preserves (s s' : State) (k : Kind) (pid : Id) (v : Nat) (c : Id)
   | ok sp =>
     rw [hl] at h
     simp only at h
-    have hst := loadSP_stored hl hk
+    have hst := loadSP_stored hl
     split at h
     · cases h
     · injection h with h; rw [← h]
@@ -215,12 +216,12 @@ theorem reward_preserves (s s' : State) (k : Kind) (pid : Id) (v : Nat) (c : Id)
 nothing. (b) An unlock by `c` leaves every OTHER client's stake in every record, and every other client's balance,
 exactly as it was — whether it succeeds or not. -/
 theorem only_owner_unlocks (cfg : Cfg) (s : State) (k : Kind) (pid : Id) (t : Txn) (wall : Nat)
-    (hk : k ≠ .authorizer) (hsc : t.client ≠ k.sc) :
+    (hsc : t.client ≠ k.sc) :
     ((∀ sp, loadSP s k pid = .ok sp → kvGet sp.pools t.client = none) → (unlockTxn cfg s k pid t wall).2 ≠ .ok) ∧
     (∀ j, j ≠ t.client → ∀ kk, stakeOfClient (unlockTxn cfg s k pid t wall).1 kk j = stakeOfClient s kk j) ∧
     (∀ j, j ≠ t.client → j ≠ k.sc →
       (Ledger.get (unlockTxn cfg s k pid t wall).1.accts j).balance = (Ledger.get s.accts j).balance) := by
-  refine ⟨?_, fun j hj kk => unlock_other_preserves cfg s k pid t wall j (Ne.symm hj) hk kk, ?_⟩
+  refine ⟨?_, fun j hj kk => unlock_other_preserves cfg s k pid t wall j (Ne.symm hj) kk, ?_⟩
   · intro hnone hok
     obtain ⟨sp, dp, _, hl, hd, _⟩ := unlock_returns_all cfg s k pid t wall hsc hok
     rw [hnone sp hl] at hd
@@ -263,22 +264,22 @@ def run (cfg : Cfg) (s : State) (ops : List Op) : State := ops.foldl (step cfg) 
 
 /-- one step of somebody else (or a reward payment) leaves `c`'s stake in every record as it was. -/
 theorem step_preserves (cfg : Cfg) (s : State) (op : Op) (c : Id) (ha : op.actor ≠ some c)
-    (hk : op.kind ≠ .authorizer) (kk : Kind × Id) : stakeOfClient (step cfg s op) kk c = stakeOfClient s kk c := by
+    (kk : Kind × Id) : stakeOfClient (step cfg s op) kk c = stakeOfClient s kk c := by
   cases op with
-  | lock k pid t => exact lock_other_preserves cfg s k pid t c (fun h => ha (by simp [Op.actor, h])) hk kk
-  | unlock k pid t wall => exact unlock_other_preserves cfg s k pid t wall c (fun h => ha (by simp [Op.actor, h])) hk kk
-  | collect k pid cl => exact collect_other_preserves s k pid cl c hk kk
+  | lock k pid t => exact lock_other_preserves cfg s k pid t c (fun h => ha (by simp [Op.actor, h])) kk
+  | unlock k pid t wall => exact unlock_other_preserves cfg s k pid t wall c (fun h => ha (by simp [Op.actor, h])) kk
+  | collect k pid cl => exact collect_other_preserves s k pid cl c kk
   | reward k pid v =>
     cases h : payReward s k pid v with
     | error e => simp only [step, h]
-    | ok s' => simp only [step, h]; exact reward_preserves s s' k pid v c hk kk h
+    | ok s' => simp only [step, h]; exact reward_preserves s s' k pid v c kk h
 
 /-- **others_preserve_stake**: over ANY interleaving of other clients' lock / unlock / collect operations and of reward
-payments (on blobbers, validators, miners, sharders), `c`'s stake — balance and staking time — in every stake-pool
+payments (on providers of all five kinds), `c`'s stake — balance and staking time — in every stake-pool
 record is unchanged, and no delegate pool of `c` appears or disappears. (`collect` by `c` itself is allowed: it only
 zeroes rewards.) -/
 theorem others_preserve_stake (cfg : Cfg) (c : Id) (kk : Kind × Id) : ∀ (ops : List Op) (s : State),
-    (∀ op ∈ ops, (op.actor ≠ some c ∨ ∃ k pid, op = .collect k pid c) ∧ op.kind ≠ .authorizer) →
+    (∀ op ∈ ops, op.actor ≠ some c ∨ ∃ k pid, op = .collect k pid c) →
     stakeOfClient (run cfg s ops) kk c = stakeOfClient s kk c := by
   intro ops
   induction ops with
@@ -288,20 +289,20 @@ theorem others_preserve_stake (cfg : Cfg) (c : Id) (kk : Kind × Id) : ∀ (ops 
     have hop := h op (List.mem_cons_self ..)
     show stakeOfClient (run cfg (step cfg s op) rest) kk c = _
     rw [ih (step cfg s op) (fun o ho => h o (List.mem_cons_of_mem _ ho))]
-    rcases hop.1 with ha | ⟨k, pid, rfl⟩
-    · exact step_preserves cfg s op c ha hop.2 kk
-    · exact collect_other_preserves s k pid c c hop.2 kk
+    rcases hop with ha | ⟨k, pid, rfl⟩
+    · exact step_preserves cfg s op c ha kk
+    · exact collect_other_preserves s k pid c c kk
 
 /-- **lock_unlock_roundtrip.** `c` locks `v` into a fresh delegate pool of provider `(k, pid)`; then ANY sequence of other
-clients' locks / unlocks / collects (on any provider of the four kinds), reward payments and `c`'s own collects; then `c`
+clients' locks / unlocks / collects (on any provider of any kind), reward payments and `c`'s own collects; then `c`
 unlocks successfully. The pool it empties still holds exactly `v`, and `c` receives exactly `v` plus the reward then
 accrued in its pool (plus the provider's service charge if `c` is the delegate wallet). Slashing (kill / shut-down, C23)
 is the only other writer of a pool balance and is not part of `ops`. -/
 theorem lock_unlock_roundtrip (cfg : Cfg) (s : State) (k : Kind) (pid : Id) (t t' : Txn) (wall : Nat) (ops : List Op)
-    (hk : k ≠ .authorizer) (hsc : t.client ≠ k.sc) (hc : t'.client = t.client)
+    (hsc : t.client ≠ k.sc) (hc : t'.client = t.client)
     (hfresh : ∀ sp, loadSP s k pid = .ok sp → kvGet sp.pools t.client = none)
     (hlock : (lockTxn cfg s k pid t).2 = .ok)
-    (hothers : ∀ op ∈ ops, (op.actor ≠ some t.client ∨ ∃ k' pid', op = .collect k' pid' t.client) ∧ op.kind ≠ .authorizer)
+    (hothers : ∀ op ∈ ops, op.actor ≠ some t.client ∨ ∃ k' pid', op = .collect k' pid' t.client)
     (hunlock : (unlockTxn cfg (run cfg (lockTxn cfg s k pid t).1 ops) k pid t' wall).2 = .ok) :
     ∃ sp dp, loadSP (run cfg (lockTxn cfg s k pid t).1 ops) k pid = .ok sp ∧ kvGet sp.pools t.client = some dp ∧
       dp.balance = t.value ∧
@@ -325,24 +326,24 @@ theorem lock_unlock_roundtrip (cfg : Cfg) (s : State) (k : Kind) (pid : Id) (t t
   have h2 := others_preserve_stake cfg t.client (k, pid) ops (lockTxn cfg s k pid t).1 hothers
   have h3 : (stakeOfClient (run cfg (lockTxn cfg s k pid t).1 ops) (k, pid) t.client).map (·.1) = some dp.balance := by
     unfold stakeOfClient
-    rw [loadSP_stored hl hk]
+    rw [loadSP_stored hl]
     simp [hd]
   rw [h2, h1] at h3
   injection h3 with h3
   refine ⟨sp, dp, hl, hd, h3.symm, ?_⟩
   rw [hpay, ← h3]
 
-/-! ## negation witness for authorizers, non-vacuity -/
+/-! ## non-vacuity -/
 
 def tenthR : F64 := F64.ofBits 0x3fb999999999999a     -- 0.1
 
 def cfgL : Cfg :=
   { owner := 3, killSlash := F64.ofBits 0x3fe0000000000000, demeter := true, minStake := fun _ => 0,
-    maxStake := fun _ => 200000000000000, minLock := 3600, spMinStake := 10000000000 }
+    maxStake := fun _ => 200000000000000, minLock := 3600, spMinStake := fun _ => 10000000000 }
 
 def spEmpty (wallet : Id) : SP :=
   { pools := [], reward := 0, wallet := some wallet, maxDelegates := 5, minStake := 10000000000, ratio := tenthR,
-    dead := false, offers := 0, inner := false }
+    dead := false, offers := 0 }
 
 /-- authorizer 40 (wallet 60) and blobber 30 (wallet 50), freshly registered; clients 41, 42 hold 10 tokens each. -/
 def sL : State :=
@@ -351,31 +352,20 @@ def sL : State :=
     sps := [((.authorizer, 40), spEmpty 60), ((.blobber, 30), spEmpty 50)],
     vpart := [], order := [41, 42, 50, 60] }
 
-/-- **The property is false for authorizers as coded.** Client 41 locks 5 tokens on authorizer 40: the transaction
-succeeds and the tokens move to the zcnsc wallet — but the record is written in the inner layout (`SP.inner`), which
-`zcnsc` reads back as an EMPTY pool: 41's own unlock fails ("no such delegate pool"), and every further lock by anybody is
-refused ("max_delegates reached", the empty view has `MaxNumDelegates = 0`). The stake cannot be recovered. -/
-theorem authorizer_lock_hides_pool_witness :
+/-- authorizers behave like every other kind (the defect repaired by fc9e9de made each conjunct false: the unlock was
+refused with "no such delegate pool", the second lock with "max_delegates reached", and a reward erased the stake):
+client 41 locks 5 tokens on authorizer 40, 42 locks too, a reward is paid, 41 unlocks and has its 5 tokens back plus
+its share (450 of 900 after the 10 % service charge). -/
+example :
     (lockTxn cfgL sL .authorizer 40 ⟨41, 50000000000, 1700000000⟩).2 = .ok ∧
-    (Ledger.get (lockTxn cfgL sL .authorizer 40 ⟨41, 50000000000, 1700000000⟩).1.accts 41).balance = 50000000000 ∧
-    (Ledger.get (lockTxn cfgL sL .authorizer 40 ⟨41, 50000000000, 1700000000⟩).1.accts zcnSC).balance = 50000000000 ∧
-    getSP (lockTxn cfgL sL .authorizer 40 ⟨41, 50000000000, 1700000000⟩).1 .authorizer 40 = some emptyRead ∧
-    (unlockTxn cfgL (lockTxn cfgL sL .authorizer 40 ⟨41, 50000000000, 1700000000⟩).1 .authorizer 40 ⟨41, 0, 0⟩
-      2000000000).2 = .fail .noPool ∧
     (lockTxn cfgL (lockTxn cfgL sL .authorizer 40 ⟨41, 50000000000, 1700000000⟩).1 .authorizer 40
-      ⟨42, 50000000000, 1700000000⟩).2 = .fail .maxDelegates := by
+      ⟨42, 50000000000, 1700000000⟩).2 = .ok ∧
+    (Ledger.get (unlockTxn cfgL (run cfgL (lockTxn cfgL sL .authorizer 40 ⟨41, 50000000000, 1700000000⟩).1
+      [.lock .authorizer 40 ⟨42, 50000000000, 1700000000⟩, .reward .authorizer 40 1000]) .authorizer 40 ⟨41, 0, 0⟩
+      2000000000).1.accts 41).balance = 100000000450 := by
   decide +kernel
 
-/-- and a later reward payment to that authorizer reads the record as empty, credits everything to the provider and
-saves THAT: the stored delegate pool of 41 (5 tokens, still held by the zcnsc wallet) is erased. -/
-theorem authorizer_reward_erases_stake_witness :
-    ((kvGet (lockTxn cfgL sL .authorizer 40 ⟨41, 50000000000, 1700000000⟩).1.sps (.authorizer, 40)).bind
-      (fun sp => kvGet sp.pools 41)).map (·.balance) = some 50000000000 ∧
-    (payReward (lockTxn cfgL sL .authorizer 40 ⟨41, 50000000000, 1700000000⟩).1 .authorizer 40 1000).toOption.bind
-      (fun s => kvGet s.sps (.authorizer, 40)) = some { emptyRead with reward := 1000, inner := false } := by
-  decide +kernel
-
--- non-vacuity: the hypotheses of the four theorems are met by concrete runs on a blobber
+-- the hypotheses of the four theorems are met by concrete runs on a blobber
 example : (lockTxn cfgL sL .blobber 30 ⟨41, 50000000000, 1700000000⟩).2 = .ok := by decide +kernel
 example : (unlockTxn cfgL (run cfgL (lockTxn cfgL sL .blobber 30 ⟨41, 50000000000, 1700000000⟩).1
       [.lock .blobber 30 ⟨42, 70000000000, 1700000000⟩, .reward .blobber 30 1000000, .collect .blobber 30 42,
